@@ -177,8 +177,43 @@ fn run_family<T: ColumnType + 'static>(case: &Value) -> Value {
     Value::Object(out)
 }
 
+/// validity table for Regex::new over every inline-error candidate of the text
+fn re_valid_table(text: &str) -> Value {
+    let mut out = vec![];
+    let mut seen: Vec<String> = vec![];
+    for line in text.lines() {
+        let toks: Vec<&str> = line.split_whitespace().collect();
+        if toks.len() >= 3 && (toks[0] == "statement" || toks[0] == "query") && toks[1] == "error" {
+            let cand = toks[2..].join(" ");
+            if !seen.contains(&cand) {
+                out.push(json!([cand, regex::Regex::new(&cand).is_ok()]));
+                seen.push(cand);
+            }
+        }
+    }
+    Value::Array(out)
+}
+
+fn parse_family<T: ColumnType>(case: &Value) -> Value {
+    let text = case["text"].as_str().unwrap();
+    let name = case.get("name").and_then(|s| s.as_str()).unwrap_or("t.slt").to_string();
+    let parsed = parse_with_name::<T>(text, name);
+    let p = match &parsed {
+        Ok(rs) => json!(["ok", rs.iter().map(record_json).collect::<Vec<_>>()]),
+        Err(e) => json!(["err", parse_kind_code(&e.kind()), e.location().line()]),
+    };
+    json!({"parse": p, "re_valid": re_valid_table(text)})
+}
+
 fn dispatch(family: &str, case: &Value) -> Value {
     match family {
+        "parse" => {
+            if case.get("coltype").and_then(|s| s.as_str()) == Some("two") {
+                parse_family::<TwoType>(case)
+            } else {
+                parse_family::<DefaultColumnType>(case)
+            }
+        }
         "run" => {
             if case.get("coltype").and_then(|s| s.as_str()) == Some("two") {
                 run_family::<TwoType>(case)
